@@ -9,6 +9,7 @@ decided by the differential oracle of harness/c08.py only (C08 is labelled parti
 -/
 import Proofs.Lemmas.MofStr
 import Proofs.Lemmas.MofNum
+import Proofs.Lemmas.MofArr
 
 namespace C08
 open Pywbem.Proto Pywbem.Model Pywbem.Model.MofStr Pywbem.Model.MofLex Pywbem.Lemmas.MofStr
@@ -121,6 +122,25 @@ theorem C08_mofstr_line_bound (s : (List Nat)) (indent maxline : Nat) (linePos :
   have := loop_cols ⟨indent, maxline, endSpace, avoid, q⟩ h hq _ s linePos mof lp (Nat.le_refl _) hr
   exact ⟨this.2, this.1⟩
 
+/-- ARRAYS OF STRINGS.  `_value_tomof` on a non-empty list of strings — every item folded by mofstr with
+    `end_space + 2`, items separated by `, ` or by `,` + new line, `line_pos` adjusted as in the code — produces
+    a text that the array-initializer part of the compiler model (string tokens, commas, p_stringValueList per
+    item) reads back as exactly the original list: same number of items, same characters, for all strings,
+    every `maxline ≥ indent + 8`, every start column, end_space, avoid_splits. -/
+theorem C08_string_array_roundtrip (s : List Nat) (ss : List (List Nat)) (indent maxline : Nat) (linePos : Int)
+    (endSpace : Nat) (avoid : Bool) (h : indent + 8 ≤ maxline) :
+    ∃ mof lp, valueTomof (.inr ((s :: ss).map Item.str)) indent maxline linePos endSpace avoid = .ok (mof, lp) ∧
+      compileStringArray mof = some (.ok (s :: ss)) := by
+  obtain ⟨segs, lp, hr, hok⟩ := Pywbem.Lemmas.MofArr.array_layout indent maxline endSpace avoid h (s :: ss) true linePos
+  refine ⟨_, lp, hr, ?_⟩
+  have hlex := Pywbem.Lemmas.MofArr.lexArray_renderArr (s :: ss) true segs hok []
+  simp only [List.append_nil] at hlex
+  have hnil : lexArray [] = some [] := rfl
+  rw [hnil] at hlex
+  simp only [Option.map_some, List.append_nil] at hlex
+  simp only [compileStringArray, hlex, Option.bind_some, Pywbem.Lemmas.MofArr.groupToks_arr s ss segs hok,
+    Option.map_some, Pywbem.Lemmas.MofArr.stringValueLists_segs (s :: ss) true segs hok]
+
 /-- INTEGER LITERALS.  Python's `str(v)` — what tomof() prints for every CIM integer value — followed by
     anything that can follow a value in MOF (end of input or a character that is no digit and none of
     `. x X b B`) is read by the lexer's five numeric token rules, tried in PLY's order (float, hex, binary,
@@ -153,6 +173,12 @@ example : mofstr [97, 97, 97, 97, 97, 34, 98] 3 11 3 0 false 34 =
 -- the line bound on the concrete fold above: columns 3+2+5 = 10 ≤ 11 and 3+2+3 = 8 = returned line_pos
 example : withinLine 11 3 [10, 32, 32, 32, 34, 97, 97, 97, 97, 97, 34, 10, 32, 32, 32, 34, 92, 34, 98, 34] = true ∧
     endCol 3 [10, 32, 32, 32, 34, 97, 97, 97, 97, 97, 34, 10, 32, 32, 32, 34, 92, 34, 98, 34] = 8 := by decide
+-- arrays: two items, the second starts a new line at maxline 14 (separator `,` + newline)
+example : ∃ mof lp, valueTomof (.inr [Item.str [97, 98], Item.str [99, 34, 100]]) 3 14 6 0 true = .ok (mof, lp) ∧
+    compileStringArray mof = some (.ok [[97, 98], [99, 34, 100]]) :=
+  C08_string_array_roundtrip [97, 98] [[99, 34, 100]] 3 14 6 0 true (by decide)
+example : valueTomof (.inr [Item.str [97, 98], Item.str [99, 34, 100]]) 3 14 6 0 true =
+    .ok ([34, 97, 98, 34, 44, 10, 32, 32, 32, 34, 99, 92, 34, 100, 34], 8) := by rfl
 -- integer literals: the delimiter hypothesis holds for `,` `;` ` ` `)` `}` newline; without it "10b" is binary 2
 example : Pywbem.Lemmas.MofNum.Delim [44] ∧ Pywbem.Lemmas.MofNum.Delim [59, 10] ∧ Pywbem.Lemmas.MofNum.Delim [] := by
   simp [Pywbem.Lemmas.MofNum.Delim, isDigit]
